@@ -6,7 +6,8 @@ Import ListNotations.
 
 (** observation of parse_and_group: error class, or the groups (key, member file ids) and the number
     of warnings issued by dcmstack.  Canonical form: members ascending, groups ordered by members. *)
-Inductive gobs := GErr (e : err) | GOk (gs : list (list gval * list nat)) (w : nat).
+Inductive gobs := GErr (e : err) | GOk (gs : list (list gval * list nat)) (w : nat) (ord : list nat).
+(* [ord]: the smallest member id of every group, in the order of the returned OrderedDict *)
 
 (** observation of parse_and_stack: error class, or per group the ids of the files that ended up in
     the stack (ascending; the list of groups ordered lexicographically), and the warnings count *)
@@ -59,7 +60,7 @@ Definition grp_eqb (a b : list gval * list nat) : bool :=
 Definition gobs_eqb (a b : gobs) : bool :=
   match a, b with
   | GErr x, GErr y => err_eqb x y
-  | GOk g w, GOk g' w' => list_eqb grp_eqb g g' && Nat.eqb w w'
+  | GOk g w o, GOk g' w' o' => list_eqb grp_eqb g g' && Nat.eqb w w' && list_eqb Nat.eqb o o'
   | _, _ => false
   end.
 
@@ -78,7 +79,7 @@ Definition reads (c : case) (order : list nat) : list (rd nat) :=
 Definition model_group (c : case) (p : plist) : gobs :=
   match parse_and_group (c_group_by c) (c_close c) group_atol (p_warn p) (reads c (p_order p)) with
   | Err e => GErr e
-  | Ok (gs, w) => GOk (canon_groups gs) w
+  | Ok (gs, w) => GOk (canon_groups gs) w (map (fun g => hd 0%nat (sort_nat (snd g))) gs)
   end.
 
 (** the stack object is represented by the list of accepted file ids *)
